@@ -29,14 +29,14 @@ var indexes = []string{"", "home.htm", "index.html", "missing.html", "/home.htm"
 var relPaths = []string{
 	"/", "/index.html", "/a.txt", "/empty.txt", "/big.bin", "/sub", "/sub/", "/sub/index.html", "/sub/b.txt", "/noindex", "/noindex/", "/noindex/c.txt",
 	"/deep/x/y/z.txt", "/deep/x/y", "/deep", "/idxdir", "/idxdir/", "/home.htm", "/sp ace.txt", "/dot..file", "/.env", "/app.js", "/ity/page.html",
-	"/missing.txt", "/sub/missing", "/a.txt/", "/a.txt/x", "/devnull", "/public%2Fa.txt", "/%61.txt", "/sub%2Fb.txt", "/%2e%2e%2foutside%2fsecret.txt", "/secret.txt", "/outside/a.txt",
+	"/missing.txt", "/sub/missing", "/a.txt/", "/a.txt/x", "/devnull", "/public/a.txt", "/sub/public/nested.txt", "/pre/fix/a.txt", "/public%2Fa.txt", "/%61.txt", "/sub%2Fb.txt", "/%2e%2e%2foutside%2fsecret.txt", "/secret.txt", "/outside/a.txt",
 	"/../outside/secret.txt", "/sub/../../outside/secret.txt", "/../../../outside/secret.txt", "/../pubX/look.txt", "/../secret.txt", "/..", "/../", "/../pub.env",
 	"/sub/../a.txt", "/sub/./b.txt", "/./a.txt", "//a.txt", "//sub", "//sub/", "/sub//b.txt", "///", "/a.txt\x00", "/\x00", "/sub/\x00/b.txt", "/..\\outside\\secret.txt",
 	"/%2e%2e/outside/secret.txt", "/...", "/sub/..", "/sub/../", "/deep/x/../../a.txt", "/deep/../../outside/a.txt", "/outside/secret.txt", "/pub/a.txt",
 }
 
 // Paths that only look like the prefix "/public".
-var lookAlikes = []string{"/public%2Fa.txt", "/publ%69c/a.txt", "/public%2f..%2fsecret.txt", "/pre%2Ffix/a.txt", "/x/../public/a.txt", "//public/a.txt", "/./public/a.txt", "/x/../public/sub", "/x/../public/sub/", "/public/../public/a.txt", "/x/../pre/fix/a.txt", "/pre//fix/a.txt", "/publicity/page.html", "/public.env", "/publicapp.js", "/publi", "/publica.txt", "/Public/a.txt", "/public../outside/secret.txt", "/publicindex.html", "/other/a.txt", "/a.txt", "/pre/fixa.txt", "/pre/a.txt", "/pre"}
+var lookAlikes = []string{"/publicpublic/a.txt", "/public/public", "/public%2Fa.txt", "/publ%69c/a.txt", "/public%2f..%2fsecret.txt", "/pre%2Ffix/a.txt", "/x/../public/a.txt", "//public/a.txt", "/./public/a.txt", "/x/../public/sub", "/x/../public/sub/", "/public/../public/a.txt", "/x/../pre/fix/a.txt", "/pre//fix/a.txt", "/publicity/page.html", "/public.env", "/publicapp.js", "/publi", "/publica.txt", "/Public/a.txt", "/public../outside/secret.txt", "/publicindex.html", "/other/a.txt", "/a.txt", "/pre/fixa.txt", "/pre/a.txt", "/pre"}
 
 var methods = []string{"GET", "HEAD", "POST", "PUT", "DELETE", "get", "OPTIONS"}
 
@@ -145,6 +145,25 @@ func (Engine) Run(t *tape.Tape, o eng.Opts) *eng.Result {
 					}
 				}
 				info.hasINM = true
+				// Sometimes the tree changes between the answer that handed out the validator and
+				// this conditional request: a request in between replaces or removes the very file.
+				if own := strings.Trim(info.rel, "/"); mutate && gen.Intn(2) == 1 {
+					if f := d.files[own]; f != nil && !f.spec.isDir {
+						mq := &world.Req{ID: id, Name: "q" + itoa(id), PlannedCancel: -1, Method: "GET", Path: pfx + "/empty.txt"}
+						id++
+						version := 1 + gen.Intn(8)
+						if gen.Intn(2) == 0 {
+							mq.FSMut = []world.FSMutation{{At: 0, What: "replace " + own, Do: func() { d.replace(own, version) }}}
+						} else {
+							mq.FSMut = []world.FSMutation{{At: 0, What: "remove " + own, Do: func() { d.remove(own) }}}
+						}
+						mq.Progs = make([][]world.Act, world.MaxPos)
+						mq.Rets = make([]world.Ret, world.MaxPos)
+						mq.Progs[nextPos] = []world.Act{{Op: world.OpSeeHeaders}, {Op: world.OpSeePath}, {Op: world.OpWrite, A: 8}}
+						reqs[ti] = append(reqs[ti], mq)
+						infos = append(infos, &reqInfo{q: mq, rel: "/empty.txt"})
+					}
+				}
 			}
 			q.Progs = make([][]world.Act, world.MaxPos)
 			q.Rets = make([]world.Ret, world.MaxPos)
@@ -423,6 +442,17 @@ func (Engine) Run(t *tape.Tape, o eng.Opts) *eng.Result {
 				}
 			}
 			res.Probes["redirects"]++
+		}
+		if staticStatus == 304 && q.ETagOf != nil && !info.hasIMS && under && cleanRel(rest) {
+			// the validator was handed out for the file as it was then: if the file has been
+			// replaced, removed or swapped since, "not modified" is no longer true
+			want := strings.Trim(rest, "/")
+			if isDir, _ := dirOK(d, want); isDir {
+				want = strings.TrimPrefix(path.Join("/", want, index), "/")
+			}
+			if d.changedBetween(want, q.ETagOf.EndStamp, q.StartStamp) {
+				viol("stale-304", "304 Not Modified for "+quote(want)+", which was replaced or removed after the validator had been handed out and before this request began\n  "+desc)
+			}
 		}
 		if staticStatus == 304 && !info.hasINM && !info.hasIMS && q.ETagOf == nil {
 			viol("spurious-304", "304 without a conditional request\n  "+desc)
